@@ -22,6 +22,7 @@ import (
 	"fmt"
 	"strconv"
 	"strings"
+	"time"
 
 	"github.com/glycerine/zygomys/v9/zygo"
 )
@@ -85,7 +86,32 @@ type evalTimeout struct{}
 
 const evalCallBudget = 20000
 
+// evalExec runs the history under a wall-clock watchdog: a self tail call compiled to a
+// `goto` makes no call, so the call budget cannot see a loop like (defn f [a] (f a)).
+// On expiry the answer is `hang` and the goroutine is abandoned (it keeps one CPU busy
+// until the process ends; the generators produce such programs very rarely).
 func evalExec(toks []string) string {
+	done := make(chan string, 1)
+	go func() {
+		defer func() {
+			if r := recover(); r != nil {
+				done <- "HOSTPANIC " + strings.ReplaceAll(fmt.Sprint(r), "\n", " ")
+			}
+		}()
+		done <- evalExecInner(toks)
+	}()
+	select {
+	case r := <-done:
+		return r
+	case <-time.After(5 * time.Second):
+		return "hang"
+	}
+}
+
+func evalExecInner(toks []string) string {
+	if len(toks) > 0 && toks[0] == "+argbrk" {
+		toks = toks[1:] // a flag for the spec side only (see Driver/Eval.lean)
+	}
 	env := zygo.NewZlisp()
 	defer env.Close()
 	var trace []string
